@@ -1,8 +1,3 @@
-<<<<<<< HEAD
-// c20.rs — temporary dispatcher until the unwind-context streams are merged (they live in the c06 branch).
-pub fn run(t: &[&str]) -> String {
-    crate::reuse::run(t)
-=======
 // c20.rs — reused state behaves like fresh state.
 // Clause 1 (this section): one UnwindContext reused over a history of evaluations (successful,
 // failing in the CIE, mid-FDE, by StackFull / TooManyRegisterRules, abandoned tables, address
@@ -55,6 +50,9 @@ fn history<'a, S: UnwindContextStorage<usize> + PartialEq>(
 
 pub fn run(t: &[&str]) -> String {
     match t[0] {
+        // ---------------------------------------------------------------- entry buffers, tree re-rooting,
+        // iterator clones, abbreviation caches (harness/src/reuse.rs)
+        "c20.buf" | "c20.tree" | "c20.clone" | "c20.cache" => crate::reuse::run(t),
         // ---------------------------------------------------------------- unwind context
         "c20.hist" | "c20.histm" => {
             let bytes = hex(t[5]);
@@ -103,5 +101,4 @@ pub fn run(t: &[&str]) -> String {
         }
         _ => format!("unknown-stream {}", t[0]),
     }
->>>>>>> c06
 }
